@@ -111,6 +111,21 @@ def check_codec(chk, repo, P):
             if all(c and c[0].func is not None for c in cs):
                 for k, c in zip(n.keys, cs):
                     read_tags[const_str(k)] = c[0].func
+    if not read_tags:
+        # the table may be a module-level name the function looks up in
+        from .interproc import dict_entries
+        for n in dh.own_nodes():
+            if isinstance(n, ast.Call) and isinstance(n.func, ast.Attribute) and n.func.attr in ("get", "__getitem__") and isinstance(n.func.value, ast.Name) or \
+                    isinstance(n, ast.Subscript) and isinstance(n.value, ast.Name):
+                name = n.func.value if isinstance(n, ast.Call) else n.value
+                ent = dict_entries(repo, dec, name)
+                if ent and all(isinstance(k, str) for k in ent):
+                    cs = {k: resolve_callees(repo, dh, v) for k, v in ent.items()}
+                    if all(c and c[0].func is not None for c in cs.values()):
+                        for k, c in cs.items():
+                            read_tags[k] = c[0].func
+    if not read_tags:
+        raise AnalysisError(f"{dec.relpath}:decode_hierarchy: no dispatch table from type tags to decoders in the recognised form; the tags are decided by the round-trip evaluation (K8)")
     for fname in ("decode_array", "postprocess"):
         fi = dec.func(fname)
         for n in fi.own_nodes():
@@ -189,6 +204,9 @@ def check_codec(chk, repo, P):
     dec_kinds, dec_default, dec_form = kind_dispatch(repo, da)
     if not enc_kinds:
         raise AnalysisError("anchor vanished: dtype-kind dispatch (table or if-chain on dtype.kind) in encode_array")
+    for form, label in ((enc_form, "encode_array"), (dec_form, "decode_array")):
+        if form is None:
+            raise AnalysisError(f"{label}: no dispatch on dtype.kind found (neither a table looked up with .get(<dtype>.kind) nor an if-chain); not decided")
     for kind, eh in sorted(enc_kinds.items()):
         if eh.func is None and not eh.stmts:
             raise AnalysisError(f"encoder for dtype kind {kind!r} does not resolve to a function")
@@ -482,11 +500,23 @@ def kind_dispatch(repo, fi):
             for k, v in zip(n.keys, n.values):
                 cs = resolve_callees(repo, fi, v)
                 table[const_str(k)] = Handler(fi, func=cs[0].func) if cs and cs[0].func else Handler(fi)
+    named = {}
+    if not table:
+        # a module-level table the function looks up in
+        from .interproc import dict_entries
+        for n in fi.own_nodes():
+            if isinstance(n, ast.Call) and isinstance(n.func, ast.Attribute) and n.func.attr == "get" and n.args and isinstance(n.func.value, ast.Name):
+                ent = dict_entries(repo, fi.module, n.func.value)
+                if ent and all(k in KIND_LETTERS for k in ent):
+                    named[n.func.value.id] = ent
+                    for k, v in ent.items():
+                        cs = resolve_callees(repo, fi, v)
+                        table[k] = Handler(fi, func=cs[0].func) if cs and cs[0].func else Handler(fi)
     if table:
         for n in fi.own_nodes():
             if isinstance(n, ast.Call) and isinstance(n.func, ast.Attribute) and n.func.attr == "get" and n.args:
                 base = flow.expand(n.func.value)
-                if isinstance(base, ast.Dict) and base.keys and all(const_str(k) in KIND_LETTERS for k in base.keys):
+                if isinstance(base, ast.Name) and base.id in named or isinstance(base, ast.Dict) and base.keys and all(const_str(k) in KIND_LETTERS for k in base.keys):
                     key = norm(flow.expand(n.args[0]))
                     form = (key.endswith(".kind"), f"table.get({key})")
                     if len(n.args) > 1:
